@@ -43,6 +43,9 @@ package internal
 //@   at call AssignableTo 1 pre assert [C14] asks-whether-element-is-assignable-to-parameter: arg0 == elemT && arg1 == fn.Inputs[elemParamPos] && (elemParamPos == 0 || elemParamPos == 1) && elemParamPos == len(fn.Inputs) - 1
 //@   at call AssignableTo 1 ghost asked = true
 //@   at call AssignableTo 1 ghost assignable = ret
+//@   at call errf 2 pre assert [C14] results-rejected-only-when-there-are-non-error-results: len(fn.Outputs) != 0
+//@   at call errf 3 pre assert [C14] arity-rejected-only-when-not-one-or-two-parameters: len(fn.Inputs) != 1 && len(fn.Inputs) != 2
+//@   at call errf 6 pre assert [C14] collection-rejected-only-when-its-underlying-type-is-not-a-slice: typeof(pure("invoke go/types.Type.Underlying", typ)) != typeid("*go/types.Slice")
 //@   ensures [C14] accepted-only-if-element-assignable: implies(result != nil, asked && assignable)
 //@   ensures [C14] assignable-element-is-accepted: implies(asked && assignable, result != nil)
 //@   ensures [C14] accepted-records-element-type: implies(result != nil, result.ElemType == elemT && result.Function == fn)
@@ -333,6 +336,9 @@ package internal
 //@   ghost cf compiledFunc
 //@   at call compileFunction 1 ghost cf = ret
 //@   ensures [C01,C11] task-and-predicate-functions-are-new-distinct-objects: implies(result != nil, result.Function != nil && forall(i, int, implies(0 <= i && i < len(flow.Funcs), flow.Funcs[i] != result.Function)) && implies(result.Predicate != nil, result.Predicate.Function != nil && result.Predicate.Function != result.Function && forall(i, int, implies(0 <= i && i < len(flow.Funcs), flow.Funcs[i] != result.Predicate.Function))))
+//@   at call errf 1 pre assert [C14,C07] missing-invoke-reported-only-for-a-task-without-values-and-without-invoke: len(t.Outputs) == 0 && t.invokeType == nil
+//@   at call errf 2 pre assert [C14,C07] superfluous-invoke-reported-only-for-a-task-with-values-and-invoke: len(t.Outputs) > 0 && t.invokeType != nil
+//@   at call compileInstrumentName 1 pre assert [C18] an-instrument-is-implied-only-under-auto-instrument-for-an-uninstrumented-task-of-an-instrumented-flow: flow.Instrument != nil && c.instrumentAllTasks && t.Instrument == nil
 //@   ensures [C18] auto-instrument-gives-every-task-of-an-instrumented-flow-an-instrument: implies(result != nil && flow.Instrument != nil && c.instrumentAllTasks, result.Instrument != nil)
 //@   ensures [C02,C10,C13] serial-numbers-are-handed-out-once: implies(result != nil, result.Serial == old(c.taskSerial) && c.taskSerial == old(c.taskSerial) + 1)
 //@   ensures [C14] a-task-without-results-needs-invoke-and-invoke-needs-no-results: implies(result != nil && ((len(result.Outputs) == 0 && result.invokeType == nil) || (len(result.Outputs) > 0 && result.invokeType != nil)), len(c.errors) > old(len(c.errors)))
@@ -495,6 +501,10 @@ package internal
 //@   at call At 1 ghost hasProv = typeof(ret) == typeid("int")
 //@   at call Identical 1 pre assert [C14] the-searched-type-is-compared-with-each-path-entry: arg1 == t && arg0 == path[idx1].Type
 //@   at call Identical 1 ghost hit = hit || ret
+//@   ghost ncmp int = 0
+//@   at call Identical 1 ghost ncmp = ncmp + 1
+//@   loop 1 invariant [C14] path-entries-compared-so-far: ncmp == idx1 && 0 <= idx1 && idx1 <= len(path) && !hit
+//@   at call At 2 pre assert [C14] every-path-entry-was-compared-before-the-search-goes-deeper: ncmp == len(path) && !hit
 //@   at call At 2 pre assert [C14] memo-lookup-is-for-the-searched-type: arg1 == t && arg0 == visited
 //@   at call At 2 ghost memo = ret != nil
 //@   at call findFlowCyclesForFunc 1 ghost suberr = suberr || ret != nil
@@ -807,6 +817,15 @@ package internal
 //@   at call Fprintln 3 ghost wrote = true
 //@   at call Fprintln 4 ghost wrote = true
 //@   at call Fprintf 1 ghost wrote = true
+//@   ghost gb bool = false
+//@   at call IsGoBuild 1 ghost gb = ret
+//@   at call Fprintf 1 pre assert [C16] only-a-go-build-line-is-rewritten-as-a-go-build-line: gb
+//@   at call PlusBuildLines 1 pre assert [C16] only-a-plus-build-line-is-rewritten-as-plus-build-lines: !gb
+//@   at call Fprintln 1 pre assert [C13,C16] every-write-goes-through-the-error-recording-writer: dataof(arg0) == &errw
+//@   at call Fprintln 2 pre assert [C13,C16] every-write-goes-through-the-error-recording-writer: dataof(arg0) == &errw
+//@   at call Fprintln 3 pre assert [C13,C16] every-write-goes-through-the-error-recording-writer: dataof(arg0) == &errw
+//@   at call Fprintln 4 pre assert [C13,C16] every-write-goes-through-the-error-recording-writer: dataof(arg0) == &errw
+//@   at call Fprintf 1 pre assert [C13,C16] every-write-goes-through-the-error-recording-writer: dataof(arg0) == &errw
 //@   at call PlusBuildLines 1 assume library-a-constraint-has-at-least-one-plus-build-line: ret1 != nil || len(ret0) >= 1
 //@   loop 2 invariant [C16] plus-build-lines-written-so-far: 0 <= idx2 && idx2 <= len(lines) && implies(idx2 >= 1, wrote) && nText == nClass && !need
 //@   at call Fprintln 1 pre assert [C16] a-line-that-is-no-constraint-is-written-unchanged: len(arg1) == 1 && dataof(arg1[0]) == line
